@@ -116,7 +116,7 @@ def abor_case(verb, place, size=None, follow="pwd", pool=True, rest=None):
     if kind not in ("ticks", "pipe", "pipe_nodata"):
         steps.append(["cmd", "ABOR"])
     steps.append(["snap", "after"])
-    if kind in ("noread", "stalled", "two"):
+    if kind in ("noread", "stalled", "stalled_gate", "two"):
         steps.append(["dread", "all"])
     if (kind in ("sent", "gate", "late_gate") and verb in ("STOR", "APPE")) or (kind == "two" and place[2] == "stor"):
         steps.append(["dsend", 3])  # bytes sent after the abort must not be stored
@@ -130,7 +130,7 @@ def abor_case(verb, place, size=None, follow="pwd", pool=True, rest=None):
         "verb": verb, "place": list(place), "follow": follow, "rest": rest,
         "steps": steps, "gates": gates, "pool": pool, "files": files, "payload": payload, "block": block,
         "inspect": ["up", "old", "up2", "old2", "f"],
-        **({"water": [8, 16]} if kind == "stalled" or "retr_stalled" in place[1:] else {}),
+        **({"water": [8, 16]} if kind in ("stalled", "stalled_gate") or "retr_stalled" in place[1:] else {}),
     }
 
 
@@ -199,6 +199,17 @@ def oracle(case, r):
             early.remove(150)
         if early != window:
             bad.append(("answered-late", f"ABOR was answered {early} while the peer stayed passive; the rest of {window} came only after the peer read its data connection / sent more"))
+    if window in want and started and not completed_before and place[0] != "handler_gate":
+        # once the abort has been answered the transfer is over: nothing of it may still be there, whatever the
+        # peer or the back-end do afterwards (judged BEFORE suspended back-end calls are released)
+        i_aft = next(i for i, rec in enumerate(log) if rec["step"] == ["snap", "after"])
+        early = [c for rec in log[i_abor : i_aft + 1] for c in rec["codes"]]
+        if log[i_abor]["step"][0] in ("ticksend", "pipe") and 150 in early:
+            early.remove(150)
+        led = r.snaps["after"]["ledger"]
+        stray = [t for t in led["tasks"] if t not in ("Server.dispatcher", "Server.parse_command", "Server.response_writer")]
+        if early == window and (stray or led["files"]):
+            bad.append(("leftover-after-answer", f"ABOR has been answered {window} but the aborted transfer still has tasks {stray} / {led['files']} open file(s)"))
     if window not in want:
         bad.append(("answered", f"replies after ABOR {window}, expected one of {want}" + ("" if ctrl_up else "; the control connection was closed")))
     if not ctrl_up:
@@ -398,6 +409,9 @@ def gen_cases(rng, thorough):
             # the data peer is connected, does not read, and the transport's write buffer is full
             for f in (follows if thorough else [nf(), nf()]):
                 cases.append(abor_case(verb, ("stalled",), follow=f))
+            # ... combined with a slow n-th back-end call (before / at / after the block at which the socket write suspends)
+            for n in ((1, 2, 3, 4, 5, 6, 7, 8) if verb == "RETR" else (1, 2, 3)):
+                cases.append(abor_case(verb, ("stalled_gate", "read" if verb == "RETR" else "stat", n), follow=nf()))
         if verb in ("LIST", "MLSD"):
             for op, lo, top in (("list", 1, 4), ("stat", 1, 3)) + ((("exists", 2, 4),) if verb == "LIST" else ()):
                 for k in range(lo, top + 1):
@@ -449,7 +463,7 @@ def run_cases(ctx, cases, facts, stream):
         verb, place = case["verb"], case["place"]
         ctx.case((stream, verb, tuple(place), case["follow"], case["pool"], case["payload"], case.get("rest"), case["files"].get("f")))
         ctx.count(f"verb:{verb}")
-        ctx.count(f"place:{place[0]}" + (f":{place[1]}" if place[0] in ("gate", "late_gate", "idle") else ""))
+        ctx.count(f"place:{place[0]}" + (f":{place[1]}" if place[0] in ("gate", "late_gate", "idle", "stalled_gate") else ""))
         ctx.count(f"follow:{case['follow']}")
         bad = oracle(case, r)
         aspects = [a for a, _ in bad]
